@@ -1154,7 +1154,19 @@ func (in *Interp) builtin(b *ssa.Builtin, args []Val, site ssa.CallInstruction) 
 		}
 		base := in.sliceVal(args[0], site)
 		out := Slice{NonNil: base.NonNil}
-		out.E = append(out.E, base.E...)
+		if len(args) > 1 && len(in.sliceVal(args[1], site).E) > 0 {
+			// an append that adds elements may have to move the slice to a
+			// new array: the elements are COPIES then, and a pointer taken
+			// into the old array before the append no longer reaches them.
+			// Code that is right under Go's semantics is right whether the
+			// array moves or not; the interpreter takes the case in which it
+			// does (the one a stale pointer is wrong in).
+			for _, c := range base.E {
+				out.E = append(out.E, copyCell(c))
+			}
+		} else {
+			out.E = append(out.E, base.E...)
+		}
 		if len(args) > 1 {
 			add := in.sliceVal(args[1], site)
 			for _, c := range add.E {
